@@ -44,10 +44,12 @@ DevContainer == "C08-container-decodes-refs-with-reader-defs"
 \* a name the reader does not define is an unresolved reference there: modelled by a type no input can satisfy
 Unresolvable(n) == [k |-> "fixed", name |-> n, size |-> 1000000]
 Hybrid(ew, er) == [n \in DOMAIN ew |-> IF n \in DOMAIN er THEN er[n] ELSE Unresolvable(n)]
-ContainerDeviant(e, c, ew, er, D) ==
+ContainerDeviant(e, c, ew, er, D, p) ==
   LET eh == Hybrid(ew, er)
       pr == Parse(Enc(c.v, e.W, ew), 1, e.W, eh) IN
-  IF ~pr.ok THEN Err ELSE Res(e.W, e.R, pr.v, eh, er, D, StdPolicy)
+  IF ~pr.ok THEN Err ELSE Res(e.W, e.R, pr.v, eh, er, D, p)
+(* with deviations enabled only the reading of union defaults is still open (first branch / first fitting branch) *)
+DevPols == {StdPolicy, FitPolicy}
 
 JudgeCase(e, c, ew, er) ==
   IF ~Conforms(c.v, e.W, ew) THEN [fail |-> {"TOOL:value-not-conforming"}, known |-> {}, drift |-> {}]
@@ -59,10 +61,10 @@ JudgeCase(e, c, ew, er) ==
       Clean(out) == REq(out, std) \/ \E p \in Policies \ {StdPolicy} : REq(out, Res(e.W, e.R, c.v, ew, er, {}, p))
       \* explanation of an entry point's result by deviations ({} = none found)
       ResultBy(x, out) ==
-        LET plain == Explain(LAMBDA D : REq(out, Res(e.W, e.R, c.v, ew, er, D, StdPolicy))) IN
+        LET plain == Explain(LAMBDA D : \E p \in DevPols : REq(out, Res(e.W, e.R, c.v, ew, er, D, p))) IN
         IF plain # {} \/ x # "cr" \/ DevContainer \notin KnownIds \/ DOMAIN ew = {} THEN plain
-        ELSE IF REq(out, ContainerDeviant(e, c, ew, er, {})) THEN {DevContainer}
-        ELSE LET more == Explain(LAMBDA D : REq(out, ContainerDeviant(e, c, ew, er, D))) IN
+        ELSE IF \E p \in DevPols : REq(out, ContainerDeviant(e, c, ew, er, {}, p)) THEN {DevContainer}
+        ELSE LET more == Explain(LAMBDA D : \E p \in DevPols : REq(out, ContainerDeviant(e, c, ew, er, D, p))) IN
              IF more = {} THEN {} ELSE more \cup {DevContainer}
       outDr == Out(c.dr)
       cleanDr == Clean(outDr)
@@ -81,7 +83,7 @@ JudgeCase(e, c, ew, er) ==
             \* a second resolution that departs from the identity may itself be a named deviation at work
             idemBy == IF ~idemFail THEN {}
                       ELSE IF ~clean THEN by
-                      ELSE Explain(LAMBDA D : REq(again, Res(e.R, e.R, out, er, er, D, StdPolicy)))
+                      ELSE Explain(LAMBDA D : \E p \in DevPols : REq(again, Res(e.R, e.R, out, er, er, D, p)))
             nm == XName(x)
             Attr(failed, clause, D) ==
               IF ~failed THEN [fail |-> {}, known |-> {}]
@@ -95,7 +97,13 @@ JudgeCase(e, c, ew, er) ==
             by |-> by]
       px == TLCEval([x \in Xs |-> PerX(x)])
       agree == (Same(c.dr, c.cr) \/ REq(Out(c.dr), Out(c.cr))) /\ (Same(c.dr, c.vr) \/ REq(Out(c.dr), Out(c.vr)))
-      allBy == UNION {px[x].by : x \in Xs}
+      \* each result may be acceptable in some reading while the three still differ: the container reader's own
+      \* deviation is then looked for explicitly
+      contBy == IF agree \/ DevContainer \notin KnownIds \/ DOMAIN ew = {} \/ ~Same(c.dr, c.vr) THEN {}
+                ELSE IF \E p \in DevPols : REq(Out(c.cr), ContainerDeviant(e, c, ew, er, {}, p)) THEN {DevContainer}
+                ELSE LET more == Explain(LAMBDA D : \E p \in DevPols : REq(Out(c.cr), ContainerDeviant(e, c, ew, er, D, p))) IN
+                     IF more = {} THEN {} ELSE more \cup {DevContainer}
+      allBy == UNION {px[x].by : x \in Xs} \cup contBy
       ag == IF agree THEN [fail |-> {}, known |-> {}]
             ELSE IF allBy = {} THEN [fail |-> {"C08:entry-points-agree"}, known |-> {}]
             ELSE [fail |-> {}, known |-> {d \o "|C08:entry-points-agree" : d \in allBy}]
